@@ -113,11 +113,33 @@ def lean_sources():
     return sorted(res)
 
 
-def grep_forbidden():
-    hits = []
-    for path in lean_sources():
-        if os.sep + "Audit" + os.sep in path:
+def import_closure(roots):
+    """files of this project reachable through `import` lines from the given module names"""
+    seen, todo = {}, list(roots)
+    while todo:
+        m = todo.pop()
+        if m in seen:
             continue
+        path = os.path.join(LEAN, *m.split(".")) + ".lean"
+        if not os.path.exists(path):
+            continue
+        seen[m] = path
+        for line in open(path, encoding="utf-8"):
+            mm = re.match(r"\s*(?:public\s+)?import\s+(\S+)", line)
+            if mm and (mm.group(1).startswith("MakoModel") or mm.group(1).startswith("Driver")):
+                todo.append(mm.group(1))
+    return seen
+
+
+def grep_forbidden(pid=None):
+    """forbidden tokens (comments stripped) in the Lean sources the property's theorems and the driver depend on
+    (import closure of Props/<pid> and Driver/Main); every source of the project when pid is None"""
+    if pid is None:
+        paths = [p for p in lean_sources() if os.sep + "Audit" + os.sep not in p]
+    else:
+        paths = sorted(import_closure(["MakoModel.Props." + pid, "Driver.Main"]).values())
+    hits = []
+    for path in paths:
         txt = strip_lean_comments(open(path, encoding="utf-8").read())
         for m in FORBIDDEN.finditer(txt):
             line = txt.count("\n", 0, m.start()) + 1
@@ -208,12 +230,39 @@ def leanchecker(mods, log):
 
 # --------------------------------------------------------------------------- driver
 
+_DRV_COPY = [None]
+
+
+def snapshot_driver():
+    """private copy of the driver binary, taken under the build lock: other checks/builders may relink
+    lean/.lake/build/bin/makodrv while this check is running"""
+    import atexit
+    import shutil
+    import tempfile
+    if _DRV_COPY[0] and os.path.exists(_DRV_COPY[0]):
+        return _DRV_COPY[0]
+    lk = _lock()
+    try:
+        if not os.path.exists(DRV):
+            raise LeanError("driver not built: " + DRV)
+        d = os.path.join(LEAN, ".lake", "drvcopies")
+        os.makedirs(d, exist_ok=True)
+        fd, path = tempfile.mkstemp(prefix="makodrv.", dir=d)
+        os.close(fd)
+        shutil.copy2(DRV, path)
+        os.chmod(path, 0o755)
+    finally:
+        lk.close()
+    _DRV_COPY[0] = path
+    atexit.register(lambda: os.path.exists(path) and os.remove(path))
+    return path
+
+
 class Driver:
     """Pipe to the compiled Lean driver.  `ask_many` sends a batch and reads the answers."""
 
     def __init__(self):
-        if not os.path.exists(DRV):
-            raise LeanError("driver not built: " + DRV)
+        self.path = snapshot_driver()
         self.n = 0
 
     def ask_many(self, lines):
@@ -221,7 +270,7 @@ class Driver:
         if not lines:
             return []
         data = "\n".join(lines) + "\n"
-        p = subprocess.run([DRV], input=data.encode("ascii"), stdout=subprocess.PIPE, stderr=subprocess.PIPE,
+        p = subprocess.run([self.path], input=data.encode("ascii"), stdout=subprocess.PIPE, stderr=subprocess.PIPE,
                            timeout=3000)
         if p.returncode != 0:
             raise LeanError("driver exited %d: %s" % (p.returncode, p.stderr.decode()[-2000:]))
